@@ -98,7 +98,8 @@ class ExecImpl:
         setattr(sp, "r%d" % r, v)
 
     def define(self, c):
-        src, lm = self.rend.render("c%d" % c["id"], c["id"], c["nparams"], c["body"])
+        # "lam": the formula is handed to modelx as a lambda expression instead of a def
+        src, lm = self.rend.render("c%d" % c["id"], c["id"], c["nparams"], c["body"], lam=bool(c.get("lam")))
         self.sources[c["id"]] = src
         self.linemaps[c["id"]] = lm
         cells = self.S.new_cells("c%d" % c["id"], formula=src, is_cached=c["cached"])
@@ -200,6 +201,9 @@ class ExecImpl:
         if what == "quiescent":
             return "q stack=%d idx=%d refstack=%d" % (
                 len(self.ex.callstack), len(self.ex.callstack.idxstack), len(self.ex.refstack))
+        if what == "handled":
+            # a measurement the model driver makes for the coverage report; nothing is read off the implementation
+            return "handled -"
         return "bad-op"
 
 
